@@ -13,6 +13,24 @@ TIME_LIMIT_NS = 2_000_000_000
 HISTORIC = "000e0012000001006e000b200003a3529440011003e8"     # panicked before fix 1966540 (zero-bit read)
 
 
+def ie_headers(b):
+    """offsets of the information elements (id, criticality, length, value) of the ProtocolIE container of an NGAP PDU whose
+    lengths all have the one-octet form; [] when the layout is not that simple"""
+    try:
+        if len(b) < 8 or b[3] >= 0x80 or 4 + b[3] != len(b):
+            return []
+        n = (b[5] << 8) | b[6]
+        i, out = 7, []
+        for _ in range(n):
+            if i + 4 > len(b) or b[i + 3] >= 0x80:
+                return out
+            out.append(i)
+            i += 4 + b[i + 3]
+        return out if i == len(b) else []
+    except IndexError:
+        return []
+
+
 class NgapMalformed(Stream):
     """every prefix, bit / byte corruptions, splices of valid encodings of every message type, random bytes"""
     name = "ngap-malformed"
@@ -128,6 +146,18 @@ class NgapMalformed(Stream):
                         pass
                     finally:
                         A.adv.cur = None
+        # an information element of the top-level list given an identifier the message does not define, together with a
+        # length that claims more than is left (enclosing lengths untouched, further elements after it)
+        for (root, b) in seeds:
+            if root != "NGAPPDU":
+                continue
+            pos = ie_headers(b)
+            for k in (pos[:-1] if len(pos) > 1 else pos)[:(2 if quick else 6)]:
+                for newlen in ([0x7f, rng.range(0x40, 0x7e)] if quick else [0x00, 0x01, 0x3f, 0x7f, 0x80, 0xbf, 0xc1, 0xc4, 0xff, rng.below(256)]):
+                    m = bytearray(b)
+                    m[k], m[k + 1] = 0x0f, 0x55
+                    m[k + 3] = newlen
+                    add(root, m, "unknown-ie-overclaim")
         for _ in range(60 if quick else 1500):           # splices
             (r1, a), (r2, b) = rng.choice(seeds), rng.choice(seeds)
             add(r1, a[:rng.below(len(a) + 1)] + b[rng.below(len(b) + 1):], "splice")
